@@ -63,10 +63,16 @@ def identity_slice(repo: Repo) -> List[Tuple[str, str, ast.AST]]:
     ]
     out = []
     seen = set()
+    missing: List[Tuple[str, str]] = []
     for rel, qn in roots:
         f = repo.maybe_func(rel, qn)
         if f is None:
-            raise AnalysisError(f"identity slice anchor vanished: {rel}:{qn}")
+            # a private helper may have moved (method <-> function, split, renamed): the code is still reached from the
+            # public entry points of its file; a vanished public entry point is a vanished anchor
+            if not qn.split(".")[-1].startswith("_"):
+                raise AnalysisError(f"identity slice anchor vanished: {rel}:{qn}")
+            missing.append((rel, qn))
+            continue
         out.append((rel, qn, f))
         seen.add(id(f))
         # nested helpers
@@ -74,10 +80,13 @@ def identity_slice(repo: Repo) -> List[Tuple[str, str, ast.AST]]:
             if isinstance(n, FuncNode) and n is not f and id(n) not in seen:
                 seen.add(id(n))
                 out.append((rel, qualname_of(n), n))
-    create = repo.func(SWEEP, "ParametricSweepFactory.create")
-    pm = next((n for n in ast.walk(create) if isinstance(n, FuncNode) and n.name == "_preprocessor_metadata"), None)
-    if pm is None:
-        raise AnalysisError("_preprocessor_metadata vanished")
+    for rel in sorted({rel for rel, _qn in missing}):
+        for f in _moved_code(repo, rel):
+            for n in ast.walk(f):
+                if isinstance(n, FuncNode) and id(n) not in seen:
+                    seen.add(id(n))
+                    out.append((rel, qualname_of(n), n))
+    pm, _factories = sweep_definition_anchors(repo)  # the builder of the published sweep definition, by role
     out.append((SWEEP, qualname_of(pm), pm))
     return out
 
@@ -548,7 +557,7 @@ def run(repo: Repo, R: Report) -> None:
                     R.check(sorted_ok, r_ord, rel, qn, norm(jd)[:90], f"bytes that are hashed depend on mapping key order ({why}): reordering YAML keys changes the identity", jd.lineno)
     if n_sites < 6:
         raise AnalysisError(f"only {n_sites} hashing sites found in the identity slice (10 confirmed by reading)")
-    for rel, qn in ((IDENT, "RunSpaceIdentityService._rscf_v1"), (BUILDER, "_normalize_run_space")):
+    for rel, qn in _normaliser_anchors(repo):
         f0 = repo.func(rel, qn)
         # normal form of the function and of the functions nested in it (accumulate-loops as comprehensions, no inlining:
         # the normaliser is recursive)
@@ -566,40 +575,11 @@ def run(repo: Repo, R: Report) -> None:
         nf = next((n for n in cands if order_normaliser_gap(n) is None), None)
         R.check(nf is not None, r_ord, rel, qn, "normaliser descends through mappings and lists", "the RSCF normaliser does not reach every mapping (" + "; ".join(sorted({order_normaliser_gap(n) or "" for n in cands})) + "): key order of a mapping nested in a list changes the run-space spec id", f0.lineno)
         R.check(ok, r_ord, rel, qn, "dicts rebuilt over sorted(keys)", "the RSCF normaliser keeps mapping order", f0.lineno)
-    # list order provenance in the sweep metadata
-    create = repo.func(SWEEP, "ParametricSweepFactory.create")
-    pm = next(n for n in ast.walk(create) if isinstance(n, FuncNode) and n.name == "_preprocessor_metadata")
-    for n in ast.walk(pm):
-        if isinstance(n, ast.Dict):
-            for k, v in zip(n.keys, n.values):
-                if isinstance(v, ast.Name) and len(assigned_value(pm, v.id)) == 1:  # a named sub-expression
-                    v = assigned_value(pm, v.id)[0]
-                if isinstance(k, ast.Constant) and isinstance(v, ast.Call) and call_attr(v) in ("list", "tuple", "sorted") and v.args:
-                    src_attr = None
-                    for x in ast.walk(v.args[0]):
-                        if isinstance(x, ast.Constant) and isinstance(x.value, str) and x.value.startswith("_"):
-                            src_attr = x.value
-                    if call_attr(v) == "sorted":
-                        R.ok(r_ord, SWEEP, qualname_of(pm), f"{k.value!r}: sorted(...)", "", v.lineno)
-                        continue
-                    prov = _class_attr_order(normalize(repo, repo.module(SWEEP), create, inline=False, loops=True), src_attr) if src_attr else "unknown"
-                    R.check(prov in ("fixed", "sorted"), r_ord, SWEEP, qualname_of(pm), f"{k.value!r}: list(cls.{src_attr}) [{prov} order]",
-                            f"a list hashed into the node semantic id inherits {prov} order: reordering the keys of the sweep's mapping changes config_id", v.lineno)
+    # list order provenance in the sweep metadata (anchors by role, order by value provenance)
+    sweep_list_order(repo, R, r_ord)
     cpc = repo.func(SEM, "compute_pipeline_config_id")
     R.check(_param_sorted_before_use(repo, SEM, "compute_pipeline_config_id"), r_ord, SEM, "compute_pipeline_config_id", "pairs sorted before hashing", "config id depends on the order pairs were collected", cpc.lineno)
-    crk = repo.func(BUILDER, "_collect_required_context_keys")
-    crk_flow = flow_of(repo, BUILDER, "_collect_required_context_keys")
-    crk_nf = crk_flow.fn
-    # every value the function can return is sorted(...) or an empty list (followed through locals / conditional expressions)
-    returned: Set[Leaf] = set()
-    for n in walk_no_nested(crk_nf):
-        if isinstance(n, ast.Return) and n.value is not None:
-            returned |= crk_flow.origins(n.value)
-    # sorted(...) under a total order: a key that can tie two different names leaves them in set iteration order
-    is_sorted = lambda l: isinstance(l[0], ast.Call) and not l[1] and isinstance(l[0].func, ast.Name) and l[0].func.id == "sorted" and _total_sort_key(kwarg(l[0], "key"))  # noqa: E731
-    is_empty = lambda l: not l[1] and ((isinstance(l[0], (ast.List, ast.Tuple)) and not l[0].elts) or (isinstance(l[0], ast.Call) and call_attr(l[0]) in ("list", "tuple") and not l[0].args))  # noqa: E731
-    unsorted = sorted(_show_leaf(l) for l in returned if not (is_sorted(l) or is_empty(l)))
-    R.check(any(is_sorted(l) for l in returned) and not unsorted, r_ord, BUILDER, "_collect_required_context_keys", "required context keys returned sorted", f"the required-key list of the inspection payload follows set iteration order (hash-seed dependent), entirely or among names the sort key ties: it can be `{unsorted[0] if unsorted else 'nothing sorted'}`", crk.lineno)
+    required_keys_sorted(repo, R, r_ord)
     # set iteration anywhere in the slice
     for rel, qn, f in sl:
         for n in walk_no_nested(f):
@@ -1382,44 +1362,6 @@ def _dumps_feeding(f: ast.AST, arg: Optional[ast.AST], depth: int = 0, mod=None)
     return out
 
 
-def _class_attr_order(create: ast.AST, attr: str) -> str:
-    """Order kind of the value assigned to class attribute *attr* in the generated sweep classes."""
-    locals_assigned = set()
-    for n in ast.walk(create):
-        if isinstance(n, ast.Assign) and any(isinstance(t, ast.Name) and t.id == attr for t in n.targets):
-            v = n.value
-            if isinstance(v, ast.Call) and call_attr(v) in ("list", "tuple") and v.args and isinstance(v.args[0], ast.Name):
-                locals_assigned.add(v.args[0].id)
-            elif isinstance(v, ast.Name):
-                locals_assigned.add(v.id)
-            elif isinstance(v, ast.Call) and call_attr(v) == "sorted":
-                return "sorted"
-    kinds = set()
-    for nm in locals_assigned:
-        for v in assigned_value(create, nm):
-            if isinstance(v, ast.Call) and call_attr(v) == "sorted":
-                kinds.add("sorted")
-            elif isinstance(v, ast.ListComp):
-                it = v.generators[0].iter
-                if isinstance(it, ast.Call) and call_attr(it) in ("values", "items", "keys"):
-                    kinds.add("mapping")
-                elif isinstance(it, ast.Call) and call_attr(it) == "sorted":
-                    kinds.add("sorted")
-                else:
-                    kinds.add("fixed")
-            elif isinstance(v, ast.List):
-                # appended to inside a loop over the element's signature parameters -> declaration order of the element
-                kinds.add("fixed")
-            else:
-                kinds.add("unknown")
-    if not kinds:
-        return "unknown"
-    for bad in ("mapping", "unknown"):
-        if bad in kinds:
-            return bad
-    return "sorted" if kinds == {"sorted"} else "fixed"
-
-
 # ---------------------------------------------------------------------------
 # round 3: D1b ambient values upstream of the identities, D2b textual rendering of containers, D2 total orders
 # ---------------------------------------------------------------------------
@@ -1808,3 +1750,626 @@ def sorts_of_sets_are_total(repo: Repo, R: Report, rule: str, sl: List[Tuple[str
                 continue
             R.check(_total_sort_key(kwarg(c, "key")), rule, m.rel, qualname_of(f), norm(c)[:90],
                     f"a set is sorted with key `{norm(kwarg(c, 'key'))[:40]}`, which can give two different elements the same key; sorted() is stable, so tied elements stay in set iteration order, which depends on PYTHONHASHSEED: the list differs between processes for the same configuration", c.lineno)
+
+
+# ---------------------------------------------------------------------------
+# round 4: order provenance (whose iteration order does a sequence show?) and the sweep-definition anchors by role
+# ---------------------------------------------------------------------------
+FIXED: Tuple[str, ...] = ("fixed",)
+SORTED: Tuple[str, ...] = ("sorted",)
+VIEW_METHODS = {"keys", "values", "items"}
+ORDER_KEEPING = {"list", "tuple", "iter", "reversed", "enumerate", "zip", "range", "len", "map", "filter"}
+ELEMENT_GROWERS = {"append", "add", "appendleft", "insert", "setdefault", "__setitem__"}
+BULK_GROWERS = {"extend", "extendleft", "__iadd__", "update"}
+MAPPING_ANNOTATION = ("Dict", "dict", "Mapping", "Set", "set", "frozenset")
+Tag = Tuple[str, ...]
+
+
+def _is_sequence_like(e: ast.AST) -> bool:
+    if isinstance(e, (ast.List, ast.ListComp, ast.GeneratorExp)):
+        return True
+    if isinstance(e, ast.Call) and isinstance(e.func, ast.Name) and e.func.id in ("list", "tuple", "sorted", "reversed"):
+        return True
+    return isinstance(e, ast.BinOp) and isinstance(e.op, ast.Add) and (_is_sequence_like(e.left) or _is_sequence_like(e.right))
+
+
+def _params_list(fn: ast.AST) -> List[ast.arg]:
+    a = fn.args
+    return list(a.posonlyargs + a.args + a.kwonlyargs)
+
+
+def config_mappings(fn: ast.AST) -> Set[str]:
+    """Parameters of *fn* that are mappings / sets: annotated so, or a mapping view (.keys/.values/.items) is taken of
+    them somewhere in the function (nested scopes included).  Iterating such a parameter shows the caller's key order."""
+    import re
+
+    out: Set[str] = set()
+    for p in _params_list(fn):
+        if p.annotation is not None and set(re.findall(r"\w+", norm(p.annotation))) & set(MAPPING_ANNOTATION):
+            out.add(p.arg)
+    names = {p.arg for p in _params_list(fn)}
+    for c in ast.walk(fn):
+        if isinstance(c, ast.Call) and isinstance(c.func, ast.Attribute) and c.func.attr in VIEW_METHODS and not c.args:
+            for x in ast.walk(c.func.value):
+                if isinstance(x, ast.Name) and x.id in names and not isinstance(c.func.value, (ast.Attribute, ast.Subscript, ast.Call)):
+                    out.add(x.id)
+    return out
+
+
+class Order:
+    """Whose iteration order does a sequence / mapping expression show?  Demand-driven on a Flow (normal form + CFG).
+
+    ``of(e, use, view)`` returns tags: ("sorted",) totally sorted; ("fixed",) written down in the program, or the order
+    of an object obtained from outside the package (a signature, a constant); ("set", text) set iteration order;
+    ("param", p, mode) the order of the function's parameter p - mode "view" when it is read through .keys() /
+    .values() / .items() (so p, or the part of p that is read, is a mapping), "direct" when p itself is iterated;
+    ("attr", p, name, mode) the same for attribute *name* of parameter p; ("unknown", text).
+    A local is followed through its reaching definitions, tuple unpacking, copies, comprehensions (order of what
+    they iterate), the loops that enclose the statements growing it (append / store / extend ...), aliases, an
+    in-place .sort() every path to the use passes, and calls of package functions (their returned values, with the
+    callee's parameters bound to the arguments)."""
+
+    def __init__(self, repo: Repo, rel: str, flow: Flow, depth: int = 0):
+        self.repo, self.rel, self.flow, self.depth = repo, rel, flow, depth
+        self.mod = repo.module(rel)
+
+    # -- helpers -----------------------------------------------------------------------------------------------
+    def _use(self, e: ast.AST) -> int:
+        return self.flow.uses_of(e)[0]
+
+    def _mode(self, view: bool) -> str:
+        return "view" if view else "direct"
+
+    def _leaf(self, leaf: Leaf, view: bool, stack: frozenset, origin: Optional[ast.AST] = None) -> Set[Tag]:
+        root, rest = leaf
+        if isinstance(root, ast.Name):
+            if root.id in self.flow.params:
+                # an element of a parameter iterated directly is a value of the configuration (list order is meaning);
+                # read through a mapping view it is a nested mapping of the caller
+                return {("param", root.id, "view")} if view else ({("param", root.id, "direct")} if not rest else {FIXED})
+            return {FIXED}
+        if isinstance(root, ast.Call) and rest:
+            if self.repo.resolve_call(self.mod, root):
+                return self._callee(root, rest, self._use(root), view, stack)
+            return {FIXED}
+        if isinstance(root, (ast.Constant, ast.JoinedStr)):
+            return {FIXED}
+        if not rest and root is not origin and isinstance(root, ast.expr):
+            return self.of(root, self._use(root), view, stack)
+        if not rest and isinstance(root, ast.Attribute):
+            return self._attr_of(root.value, root.attr, self._use(root), view, stack)
+        return {("unknown", norm(root)[:40])}
+
+    def _element(self, e: ast.AST, use: int, view: bool, stack: frozenset) -> Set[Tag]:
+        out: Set[Tag] = set()
+        for leaf in self.flow._q(e, (), use, frozenset()):
+            if leaf[0] is e and not leaf[1] and not isinstance(e, ast.Name):
+                out.add(FIXED if isinstance(e, ast.Call) and not self.repo.resolve_call(self.mod, e) else ("unknown", norm(e)[:40]))
+            else:
+                out |= self._leaf(leaf, view, stack, origin=e)
+        return out or {FIXED}
+
+    def _attr_of(self, base: ast.AST, attr: str, use: int, view: bool, stack: frozenset) -> Set[Tag]:
+        if isinstance(base, ast.Name):
+            ids, entry = self.flow.reaching(base.id, use)
+            if entry and not ids and base.id in self.flow.params and not self._bound_in_expression(base):
+                return {("attr", base.id, attr, self._mode(view))}
+        out: Set[Tag] = set()
+        for root, rest in self.flow._q(base, (), use, frozenset()):
+            if isinstance(root, ast.Name) and root.id in self.flow.params:
+                out.add(("param", root.id, self._mode(view)))
+            elif isinstance(root, ast.Name):
+                out.add(FIXED)
+            elif isinstance(root, ast.Call) and not self.repo.resolve_call(self.mod, root):
+                out.add(FIXED)  # an object made outside the package (inspect.signature(...)): its order is its own
+            else:
+                out.add(("unknown", f"{norm(root)[:30]}.{attr}"))
+        return out or {FIXED}
+
+    def _bound_in_expression(self, e: ast.Name) -> bool:
+        cur: ast.AST = e
+        while True:
+            par = getattr(cur, "_parent", None)
+            if par is None or isinstance(par, ast.stmt) or cur is self.flow.fn:
+                return False
+            if isinstance(par, (ast.ListComp, ast.SetComp, ast.GeneratorExp, ast.DictComp)):
+                for gen in par.generators:
+                    if Flow._target_path(gen.target, e.id) is not None and cur is not gen.iter:
+                        return True
+            if isinstance(par, ast.Lambda) and e.id in {x.arg for x in _params_list(par)}:
+                return True
+            cur = par
+
+    # -- the query ---------------------------------------------------------------------------------------------
+    def of(self, e: Optional[ast.AST], use: int, view: bool = False, stack: frozenset = frozenset()) -> Set[Tag]:
+        if e is None:
+            return set()
+        key = (id(e), use, view)
+        if key in stack or len(stack) > 60:
+            return set()
+        stack = stack | {key}
+        rec = lambda x, v=view: self.of(x, use, v, stack)  # noqa: E731
+        if isinstance(e, (ast.Constant, ast.JoinedStr)):
+            return {FIXED}
+        if isinstance(e, ast.Name):
+            return self._name(e, use, view, stack)
+        if isinstance(e, ast.IfExp):
+            return rec(e.body) | rec(e.orelse)
+        if isinstance(e, ast.BoolOp):
+            return set().union(*[rec(v) for v in e.values])
+        if isinstance(e, (ast.NamedExpr, ast.Starred, ast.Await)):
+            return rec(e.value)
+        if isinstance(e, (ast.List, ast.Tuple)):
+            return {FIXED}.union(*[rec(x.value, False) for x in e.elts if isinstance(x, ast.Starred)])
+        if isinstance(e, ast.Set):
+            return {("set", norm(e)[:40])} if len(e.elts) > 1 or any(isinstance(x, ast.Starred) for x in e.elts) else {FIXED}
+        if isinstance(e, ast.Dict):
+            return {FIXED}.union(*[rec(v, True) for k, v in zip(e.keys, e.values) if k is None])
+        if isinstance(e, (ast.ListComp, ast.GeneratorExp, ast.DictComp)):
+            return set().union(*[rec(gen.iter, False) for gen in e.generators])
+        if isinstance(e, ast.SetComp):
+            return {("set", norm(e)[:40])}
+        if isinstance(e, ast.BinOp):
+            if isinstance(e.op, (ast.Sub, ast.BitAnd, ast.BitXor)):
+                return {("set", norm(e)[:40])}
+            return rec(e.left) | rec(e.right)
+        if isinstance(e, ast.Subscript):
+            return rec(e.value) if isinstance(e.slice, ast.Slice) else self._element(e, use, view, stack)
+        if isinstance(e, ast.Attribute):
+            return self._attr_of(e.value, e.attr, use, view, stack)
+        if isinstance(e, ast.Call):
+            return self._call(e, use, view, stack)
+        return {("unknown", norm(e)[:40])}
+
+    def _call(self, e: ast.Call, use: int, view: bool, stack: frozenset) -> Set[Tag]:
+        rec = lambda x, v=view: self.of(x, use, v, stack)  # noqa: E731
+        f = e.func
+        fname = f.id if isinstance(f, ast.Name) else None
+        meth = f.attr if isinstance(f, ast.Attribute) else None
+        dn = dotted_name(f) or ""
+        if fname == "sorted" and e.args:
+            return {SORTED} if _total_sort_key(kwarg(e, "key")) else rec(e.args[0], False)
+        if fname in ("set", "frozenset"):
+            return {("set", norm(e)[:40])} if e.args else {FIXED}
+        if fname in ORDER_KEEPING:
+            args = e.args[1:] if fname in ("map", "filter") else e.args
+            return {FIXED}.union(*[rec(a, False) for a in args])
+        if fname in MAP_COPIES:
+            return {FIXED}.union(*[rec(a, True) for a in e.args])
+        if fname == "getattr" and len(e.args) >= 2 and isinstance(e.args[1], ast.Constant) and isinstance(e.args[1].value, str):
+            return self._attr_of(e.args[0], e.args[1].value, use, view, stack) | (rec(e.args[2]) if len(e.args) == 3 else set())
+        if meth in VIEW_METHODS and not e.args and not e.keywords:
+            return rec(f.value, True)
+        if meth == "copy" and not e.args and dn != "copy.copy":
+            return rec(f.value)
+        if dn in ("copy.copy", "copy.deepcopy", "deepcopy") and len(e.args) == 1:
+            return rec(e.args[0])
+        if dn in ("cast", "typing.cast") and len(e.args) == 2:
+            return rec(e.args[1])
+        if meth in ("get", "pop", "setdefault") and e.args and len(e.args) <= 2 and not e.keywords:
+            return self._element(e, use, view, stack)
+        if self.repo.resolve_call(self.mod, e):
+            return self._callee(e, (), use, view, stack)
+        # a function from outside the package: assumed to keep the order of the iterables it is handed
+        out: Set[Tag] = {FIXED}
+        for a in list(e.args) + [kw.value for kw in e.keywords]:
+            out |= {t for t in rec(a, False) if t[0] not in ("fixed", "sorted", "unknown")}
+        return out
+
+    def _callee(self, call: ast.Call, path: Tuple[str, ...], use: int, view: bool, stack: frozenset) -> Set[Tag]:
+        if self.depth >= 3:
+            return {("unknown", norm(call.func)[:40] + "(...)")}
+        out: Set[Tag] = set()
+        for tm, tf in self.repo.resolve_call(self.mod, call):
+            if not isinstance(tf, FuncNode) or self.repo.module(tm.rel).defs.get(qualname_of(tf)) is not tf:
+                out.add(("unknown", norm(call.func)[:40] + "(...)"))
+                continue
+            try:
+                sub = Order(self.repo, tm.rel, flow_of(self.repo, tm.rel, qualname_of(tf)), self.depth + 1)
+            except AnalysisError:
+                out.add(("unknown", norm(call.func)[:40] + "(...)"))
+                continue
+            rets = [n for n in walk_no_nested(sub.flow.fn) if isinstance(n, ast.Return) and n.value is not None]
+            if not rets or any(isinstance(n, (ast.Yield, ast.YieldFrom)) for n in walk_no_nested(sub.flow.fn)):
+                out.add(("unknown", norm(call.func)[:40] + "(...)"))
+                continue
+            got: Set[Tag] = set()
+            for ret in rets:
+                u = sub._use(ret.value)
+                if path:
+                    for leaf in sub.flow._q(ret.value, path, u, frozenset()):
+                        got |= sub._leaf(leaf, view, frozenset())
+                else:
+                    got |= sub.of(ret.value, u, view)
+            # the callee's parameters are the caller's arguments
+            pos = [p.arg for p in tf.args.posonlyargs + tf.args.args]
+            if pos and pos[0] in ("self", "cls") and isinstance(getattr(tf, "_parent", None), ast.ClassDef) and isinstance(call.func, ast.Attribute):
+                pos = pos[1:]
+            for t in got:
+                if t[0] not in ("param", "attr"):
+                    out.add(t)
+                    continue
+                p, mode = t[1], t[-1]
+                arg = kwarg(call, p)
+                if arg is None and p in pos and pos.index(p) < len(call.args) and not any(isinstance(a, ast.Starred) for a in call.args):
+                    arg = call.args[pos.index(p)]
+                if arg is None:
+                    out.add(FIXED if p in {x.arg for x in _params_list(tf)} and p not in ("self", "cls") else ("unknown", f"{p} of {tf.name}"))
+                elif t[0] == "attr":
+                    out |= self._attr_of(arg, t[2], use, mode == "view", stack)
+                else:
+                    out |= self.of(arg, use, mode == "view", stack)
+        return out or {("unknown", norm(call.func)[:40] + "(...)")}
+
+    def _name(self, e: ast.Name, use: int, view: bool, stack: frozenset) -> Set[Tag]:
+        fl = self.flow
+        name = e.id
+        if self._bound_in_expression(e):
+            return self._element(e, use, view, stack)
+        ids, entry = fl.reaching(name, use)
+        out: Set[Tag] = set()
+        if entry:
+            out.add(("param", name, self._mode(view)) if name in fl.params else FIXED)
+        origins: List[int] = list(ids) + ([-1] if entry else [])
+        for did in ids:
+            a = fl.g.nodes[did].ast
+            if isinstance(a, (ast.Assign, ast.AnnAssign)):
+                for t in (a.targets if isinstance(a, ast.Assign) else [a.target]):
+                    tp = Flow._target_path(t, name)
+                    if tp is None:
+                        continue
+                    if not tp:
+                        out |= self.of(a.value, did, view, stack)
+                    else:
+                        for leaf in fl._q(a.value, tp, did, frozenset()):
+                            out |= self._leaf(leaf, view, stack)
+            elif isinstance(a, ast.AugAssign):
+                if isinstance(a.target, ast.Name):
+                    out |= self._name(a.target, did, view, stack)
+                out |= self.of(a.value, did, False, stack)
+            elif isinstance(a, (ast.For, ast.AsyncFor)):
+                tp = Flow._target_path(a.target, name) or ()
+                for leaf in fl._q(a.iter, (ANY,) + tp, did, frozenset()):
+                    out |= self._leaf(leaf, view, stack)
+            else:
+                out.add(FIXED)
+        objs = set(ids) | ({-1} if entry else set())
+        grown, sites = self._growth(name, objs, stack, 0)
+        out |= grown
+        # an in-place total sort that every path from the creation / last growth to the use passes
+        sorts = {u for nm, kind, site, st in fl._mutations() if nm == name and kind == "call" and site.func.attr == "sort" and _total_sort_key(kwarg(site, "key"))
+                 for u in fl._same_object(name, objs, st)}
+        if sorts and use not in sorts:
+            def escapes(o: int) -> bool:
+                starts = [fl.g.entry] if o == -1 else [t for t, _l in fl.g.succ[o] if t not in sorts]
+                return use in starts or use in fl.g.reach(starts, blocked=sorts - {use})
+            if not any(escapes(o) for o in origins + [s for s in sites if s not in sorts]):
+                return {SORTED}
+        return out or {FIXED}
+
+    def _growth(self, name: str, objs: Set[int], stack: frozenset, depth: int) -> Tuple[Set[Tag], List[int]]:
+        """Order contributed by what is put into the object after its creation, and the CFG nodes where that happens."""
+        fl = self.flow
+        out: Set[Tag] = set()
+        sites: List[int] = []
+        def_asts = [fl.g.nodes[d].ast for d in objs if d != -1]
+
+        def loops(st: ast.AST) -> Set[Tag]:
+            res: Set[Tag] = set()
+            for a in ancestors(st):
+                if a is fl.fn:
+                    break
+                if isinstance(a, (ast.For, ast.AsyncFor)):
+                    # a loop around the creation of the object as well does not order its content
+                    if def_asts and all(any(x is d for x in ast.walk(a)) and d is not a for d in def_asts):
+                        continue
+                    ids = fl.g.nodes_for(a)
+                    if ids:
+                        res |= self.of(a.iter, ids[0], False, stack)
+            return res
+
+        for nm, kind, site, st in fl._mutations():
+            if nm != name:
+                continue
+            uses = fl._same_object(name, objs, st)
+            if not uses:
+                continue
+            if kind == "alias":
+                if depth < 3:
+                    alias_defs = {d.id for d in fl._all_defs(site.id) if d.ast is st}
+                    g2, s2 = self._growth(site.id, alias_defs, stack, depth + 1)
+                    out |= g2
+                    sites += s2
+                continue
+            if kind == "store":
+                out |= loops(st)
+                sites += uses
+                continue
+            m = site.func.attr
+            if m in ELEMENT_GROWERS:
+                out |= loops(st)
+                sites += uses
+            elif m in BULK_GROWERS:
+                out |= loops(st)
+                for a in list(site.args) + [kw.value for kw in site.keywords if kw.arg is None]:
+                    out |= self.of(a, uses[0], m == "update", stack)
+                sites += uses
+        return out, sites
+
+
+def order_of(repo: Repo, rel: str, flow: Flow, e: ast.AST, view: bool = False) -> Set[Tag]:
+    o = Order(repo, rel, flow)
+    return o.of(e, o._use(e), view)
+
+
+def _show_tag(t: Tag) -> str:
+    if t[0] == "param":
+        return f"order of the caller's mapping `{t[1]}`" if t[2] == "view" else f"order of parameter `{t[1]}`"
+    if t[0] == "attr":
+        return f"order of `{t[1]}.{t[2]}`" + (" (a mapping)" if t[3] == "view" else "")
+    if t[0] == "set":
+        return f"set iteration order of `{t[1]}`"
+    if t[0] == "unknown":
+        return f"unknown order of `{t[1]}`"
+    return t[0]
+
+
+def _stores_under_key(tree: ast.AST, key: str) -> List[Tuple[ast.AST, ast.AST]]:
+    """(site, value) for every place in *tree* where a value is put under the constant mapping key *key*."""
+    out: List[Tuple[ast.AST, ast.AST]] = []
+    for n in ast.walk(tree):
+        if isinstance(n, (ast.Assign, ast.AnnAssign)) and getattr(n, "value", None) is not None:
+            for t in (n.targets if isinstance(n, ast.Assign) else [n.target]):
+                if isinstance(t, ast.Subscript) and isinstance(t.slice, ast.Constant) and t.slice.value == key:
+                    out.append((n, n.value))
+        elif isinstance(n, ast.Dict):
+            out += [(n, v) for k, v in zip(n.keys, n.values) if isinstance(k, ast.Constant) and k.value == key]
+        elif isinstance(n, ast.Call):
+            out += [(n, kw.value) for kw in n.keywords if kw.arg == key and call_attr(n) in ("dict", "update")]
+            if call_attr(n) in ("setdefault", "__setitem__") and len(n.args) == 2 and isinstance(n.args[0], ast.Constant) and n.args[0].value == key:
+                out.append((n, n.args[1]))
+    return out
+
+
+def sweep_definition_anchors(repo: Repo) -> Tuple[ast.AST, List[ast.AST]]:
+    """(the function that builds the published sweep definition, the functions inside which sweep classes are
+    generated), found by role in the sweep factory module: the generated classes put the result of a call under
+    'preprocessor' of their metadata - the callee is the builder (a nested def, a module-level function or a method,
+    whatever its name), the outermost function around such a class is a generator of sweep classes."""
+    cached = repo.__dict__.get("_c04_sweep_anchors")
+    if cached is not None:
+        return cached
+    mod = repo.module(SWEEP)
+    builders: List[ast.AST] = []
+    factories: List[ast.AST] = []
+    hooks: List[ast.AST] = []
+    for site, v in _stores_under_key(mod.tree, "preprocessor"):
+        if not isinstance(v, ast.Call):
+            continue
+        targets = [tf for tm, tf in repo.resolve_call(mod, v) if tm.rel == SWEEP and isinstance(tf, FuncNode)]
+        if not targets and isinstance(v.func, ast.Attribute):  # cls.<builder>() / self.<builder>(): a method of the generated class
+            owner = next((a for a in ancestors(site) if isinstance(a, ast.ClassDef)), None)
+            targets = [n for n in (owner.body if owner is not None else []) if isinstance(n, FuncNode) and n.name == v.func.attr]
+        for tf in targets:
+            if not any(tf is b for b in builders):
+                builders.append(tf)
+        if targets:
+            hook = next((a for a in ancestors(site) if isinstance(a, FuncNode)), None)
+            if hook is not None:
+                hooks.append(hook)
+    # generated classes: created inside a function, holding the hook or referring to it (classmethod(<hook>))
+    for c in ast.walk(mod.tree):
+        if not isinstance(c, ast.ClassDef):
+            continue
+        fs = [a for a in ancestors(c) if isinstance(a, FuncNode)]  # innermost first
+        if not fs:
+            continue
+        inner = list(ast.walk(c))
+        if any(h is x for h in hooks for x in inner) or any(isinstance(x, ast.Name) and isinstance(x.ctx, ast.Load) and any(x.id == h.name for h in hooks) for x in inner):
+            if not any(fs[-1] is x for x in factories):
+                factories.append(fs[-1])
+    if len(builders) != 1 or not factories:
+        raise AnalysisError(f"sweep definition builder not found by role in {SWEEP} ({len(builders)} functions stored under 'preprocessor', {len(factories)} class factories)")
+    repo.__dict__["_c04_sweep_anchors"] = (builders[0], factories)
+    return builders[0], factories
+
+
+def _hashed_sequences(flow: Flow, e: ast.AST) -> List[ast.AST]:
+    """Expressions that can evaluate to a list / tuple somewhere inside the structure *e* evaluates to (through
+    mappings, sequences, locals, stores and updates)."""
+    out: List[ast.AST] = []
+    seen: Set[int] = set()
+
+    def collect(x: ast.AST, depth: int) -> None:
+        if id(x) in seen or depth > 5 or not isinstance(x, ast.expr):
+            return
+        seen.add(id(x))
+        try:
+            top = flow.origins(x)
+            below = flow.origins(x, (ANY,))
+        except AnalysisError:
+            return
+        if any(not rest and _is_sequence_like(root) for root, rest in top):
+            out.append(x)
+        for root, rest in sorted(below, key=lambda l: (getattr(l[0], "lineno", 0), getattr(l[0], "col_offset", 0))):
+            if not rest:
+                collect(root, depth + 1)
+
+    collect(e, 0)
+    return out
+
+
+def _entry_contexts(repo: Repo, fn0: ast.AST) -> List[Tuple[ast.AST, Optional[ast.Call]]]:
+    """Where the parameters of the class factory *fn0* get their values: [(fn0, None)] when it is called from outside
+    the module (public name / no caller here), else one (caller, call) per call site in the module."""
+    mod = repo.module(SWEEP)
+    if not fn0.name.startswith("_") or fn0.name.startswith("__"):
+        return [(fn0, None)]
+    out: List[Tuple[ast.AST, Optional[ast.Call]]] = []
+    for qn, caller in mod.defs.items():
+        if not isinstance(caller, FuncNode) or caller is fn0:
+            continue
+        nf = nfunc(repo, SWEEP, qn)
+        for c in calls_in(nf):
+            if call_attr(c) == fn0.name and any(tf is fn0 for _tm, tf in repo.resolve_call(mod, c)):
+                out.append((caller, c))
+    return out or [(fn0, None)]
+
+
+def _bad_order_tags(repo: Repo, fn0: ast.AST, tags: Set[Tag], depth: int = 0) -> List[str]:
+    """Descriptions of the tags that make a hashed list depend on a cosmetic order.  Parameters of a private class
+    factory are followed to the arguments at its call sites."""
+    bad: List[str] = []
+    param_tags = [t for t in tags if t[0] in ("param", "attr")]
+    bad += [_show_tag(t) for t in tags if t[0] in ("set", "unknown")]
+    if not param_tags:
+        return sorted(set(bad))
+    for ctx_fn, call in _entry_contexts(repo, fn0):
+        if call is None or depth >= 2:
+            cm = config_mappings(fn0)
+            bad += [_show_tag(t) for t in param_tags if t[-1] == "view" or t[1] in cm]
+            continue
+        flow = flow_of(repo, SWEEP, qualname_of(ctx_fn))
+        o = Order(repo, SWEEP, flow)
+        pos = [p.arg for p in fn0.args.posonlyargs + fn0.args.args]
+        for t in param_tags:
+            arg = kwarg(call, t[1])
+            if arg is None and t[1] in pos and pos.index(t[1]) < len(call.args):
+                arg = call.args[pos.index(t[1])]
+            if arg is None:
+                continue  # the default value
+            use = o._use(arg)
+            sub = o._attr_of(arg, t[2], use, t[-1] == "view", frozenset()) if t[0] == "attr" else o.of(arg, use, t[-1] == "view")
+            bad += _bad_order_tags(repo, ctx_fn, sub, depth + 1)
+    return sorted(set(bad))
+
+
+def sweep_list_order(repo: Repo, R: Report, rule: str) -> None:
+    """C04-D2 list-order provenance of the published sweep definition: every list inside the mapping the builder
+    returns is sorted, written down in the program, or in an order the configuration text cannot change (the
+    declaration order of the wrapped element's parameters) - never the key order of a mapping the caller supplied
+    (vars, parametric_expressions) or of a set.  Lists that copy an attribute of the generated class are followed
+    to the value the class factory binds to that attribute."""
+    builder0, factories0 = sweep_definition_anchors(repo)
+    b_qn = qualname_of(builder0)
+    bflow = flow_of(repo, SWEEP, b_qn)
+    bfn = bflow.fn
+    bparams = [p.arg for p in _params_list(bfn)]
+    n = 0
+    for ret in [x for x in walk_no_nested(bfn) if isinstance(x, ast.Return) and x.value is not None]:
+        for seq in _hashed_sequences(bflow, ret.value):
+            n += 1
+            tags = order_of(repo, SWEEP, bflow, seq)
+            bad: List[str] = []
+            shown: Set[str] = set()
+            rest: Set[Tag] = set()
+            for t in tags:
+                if t[0] == "attr" and bparams and t[1] == bparams[0] or (t[0] == "attr" and t[1] in ("cls", "self")):
+                    # attribute of the generated class: the value bound in the class body, in the factory's frame
+                    found = False
+                    for f0 in factories0:
+                        fflow = flow_of(repo, SWEEP, qualname_of(f0))
+                        for c in [c for c in ast.walk(fflow.fn) if isinstance(c, ast.ClassDef)]:
+                            for st in c.body:
+                                tg = st.targets if isinstance(st, ast.Assign) else [st.target] if isinstance(st, ast.AnnAssign) and st.value is not None else []
+                                if any(isinstance(x, ast.Name) and x.id == t[2] for x in tg):
+                                    found = True
+                                    sub = order_of(repo, SWEEP, fflow, st.value, view=t[3] == "view")
+                                    shown |= {x[0] for x in sub}
+                                    bad += _bad_order_tags(repo, f0, sub)
+                    if not found:
+                        shown.add("fixed")  # never bound by a generated class: the default of the read
+                else:
+                    rest.add(t)
+            shown |= {x[0] for x in rest}
+            bad += _bad_order_tags(repo, builder0, rest)
+            par = getattr(seq, "_parent", None)
+            key = next((k.value for k, v in zip(par.keys, par.values) if v is seq and isinstance(k, ast.Constant)), None) if isinstance(par, ast.Dict) else None
+            kind = "sorted" if shown <= {"sorted"} and shown else "fixed" if not bad else "caller-dependent"
+            label = (f"{key!r}: " if key is not None else "") + f"{norm(seq)[:60]} [{kind} order]"
+            R.check(not bad, rule, SWEEP, b_qn, label,
+                    f"a list hashed into the node semantic id inherits {'; '.join(sorted(set(bad)))[:200]}: reordering the keys of the sweep's mapping (or another hash seed) changes config_id", getattr(seq, "lineno", bfn.lineno))
+    if n == 0:
+        raise AnalysisError("no list found inside the published sweep definition (dependencies.required_external_parameters / context_keys expected)")
+
+
+PUBLIC_ENTRIES = {
+    GRAPH: ("build_canonical_spec", "compute_pipeline_id", "compute_upstream_map"),
+    SEM: ("compute_node_semantic_id", "compute_pipeline_config_id", "compute_pipeline_semantic_id", "normalize_expression_sig_v1", "variable_domain_signature"),
+    BUILDER: ("build_inspection_payload",),
+    IDENT: ("RunSpaceIdentityService.compute",),
+    DESC: ("descriptor_to_json",),
+    PREP: ("preprocess_node_config",),
+}
+
+
+def _moved_code(repo: Repo, rel: str) -> List[ast.AST]:
+    """Functions of file *rel* reached (call graph, inside the file) from its public identity entry points."""
+    mod = repo.module(rel)
+    roots = []
+    for qn in PUBLIC_ENTRIES.get(rel, ()):
+        f = repo.maybe_func(rel, qn)
+        if f is None:
+            raise AnalysisError(f"identity slice anchor vanished: {rel}:{qn}")
+        roots.append((mod, f))
+    clo = repo.call_graph_closure(roots, stop=lambda m, n: m.rel != rel)
+    return [f for m, f, _p in sorted(clo.values(), key=lambda t: getattr(t[1], "lineno", 0)) if m.rel == rel and isinstance(f, FuncNode)]
+
+
+def _normaliser_anchors(repo: Repo) -> List[Tuple[str, str]]:
+    """The two hand-written key-order normalisers of the run-space spec id (run time: RSCF bytes; inspection): the named
+    functions, or - when one moved - the functions of its file reached from the public entry point that call a
+    recursive function / are recursive themselves (a normaliser walks the value recursively)."""
+    out: List[Tuple[str, str]] = []
+    for rel, qn in ((IDENT, "RunSpaceIdentityService._rscf_v1"), (BUILDER, "_normalize_run_space")):
+        if repo.maybe_func(rel, qn) is not None:
+            out.append((rel, qn))
+            continue
+        mod = repo.module(rel)
+        found = []
+        for f in _moved_code(repo, rel):
+            if mod.defs.get(qualname_of(f)) is not f:
+                continue
+            own = [c for c in calls_in(f) if call_attr(c) == f.name]
+            if own and order_normaliser_gap(normalize(repo, mod, f, inline=False, loops=True)) is None:
+                found.append((rel, qualname_of(f)))
+        if not found:  # no complete normaliser anywhere on the path: report on every recursive candidate
+            found = [(rel, qualname_of(f)) for f in _moved_code(repo, rel) if mod.defs.get(qualname_of(f)) is f and any(call_attr(c) == f.name for c in calls_in(f))]
+        if not found:
+            raise AnalysisError(f"key-order normaliser of the run-space spec id not found in {rel}")
+        out += found
+    return out
+
+
+def required_keys_sorted(repo: Repo, R: Report, rule: str) -> None:
+    """C04-D2: what the inspection payload carries under 'required_context_keys' is, on every path, sorted(...) under a
+    total order or an empty list.  Anchored at the public entry point (build_inspection_payload) and the payload key;
+    the helper that computes the list is inlined by the normal form wherever it lives."""
+    flow = flow_of(repo, BUILDER, "build_inspection_payload")
+    fn = flow.fn
+    returned: Set[Leaf] = set()
+    for n in walk_no_nested(fn):
+        if isinstance(n, ast.Return) and n.value is not None:
+            returned |= flow.origins(n.value, ("f:required_context_keys",))
+    # a helper the normal form could not inline: its returned values
+    expanded: Set[Leaf] = set()
+    where = "build_inspection_payload"
+    for root, rest in returned:
+        targets = repo.resolve_call(repo.module(BUILDER), root) if isinstance(root, ast.Call) and not rest else []
+        targets = [(tm, tf) for tm, tf in targets if isinstance(tf, FuncNode) and tm.defs.get(qualname_of(tf)) is tf]
+        if not targets or (isinstance(root.func, ast.Name) and root.func.id == "sorted"):
+            expanded.add((root, rest))
+            continue
+        for tm, tf in targets:
+            sub = flow_of(repo, tm.rel, qualname_of(tf))
+            where = qualname_of(tf)
+            for n in walk_no_nested(sub.fn):
+                if isinstance(n, ast.Return) and n.value is not None:
+                    expanded |= sub.origins(n.value)
+    if not expanded:
+        raise AnalysisError("build_inspection_payload: no value found under 'required_context_keys' of the payload")
+    # sorted(...) under a total order: a key that can tie two different names leaves them in set iteration order
+    is_sorted = lambda l: isinstance(l[0], ast.Call) and not l[1] and isinstance(l[0].func, ast.Name) and l[0].func.id == "sorted" and _total_sort_key(kwarg(l[0], "key"))  # noqa: E731
+    is_empty = lambda l: not l[1] and ((isinstance(l[0], (ast.List, ast.Tuple)) and not l[0].elts) or (isinstance(l[0], ast.Call) and call_attr(l[0]) in ("list", "tuple") and not l[0].args))  # noqa: E731
+    unsorted = sorted(_show_leaf(l) for l in expanded if not (is_sorted(l) or is_empty(l)))
+    R.check(any(is_sorted(l) for l in expanded) and not unsorted, rule, BUILDER, where, "required context keys returned sorted", f"the required-key list of the inspection payload follows set iteration order (hash-seed dependent), entirely or among names the sort key ties: it can be `{unsorted[0] if unsorted else 'nothing sorted'}`", fn.lineno)
